@@ -64,6 +64,30 @@ impl<'a> Info<'a> {
     }
 }
 
+/// Read-only accessors for the external verification harness (`--cfg fancy_regex_verif`).
+#[cfg(fancy_regex_verif)]
+#[allow(missing_docs)]
+impl<'a> Info<'a> {
+    #[doc(hidden)]
+    pub fn verif_facts(&self) -> (usize, bool, bool, usize, usize) {
+        (
+            self.min_size,
+            self.const_size,
+            self.hard,
+            self.start_group,
+            self.end_group,
+        )
+    }
+    #[doc(hidden)]
+    pub fn verif_children(&self) -> &[Info<'a>] {
+        &self.children
+    }
+    #[doc(hidden)]
+    pub fn verif_expr(&self) -> &'a Expr {
+        self.expr
+    }
+}
+
 struct Analyzer<'a> {
     backrefs: &'a BitSet,
     group_ix: usize,
